@@ -24,6 +24,7 @@ type runOut struct {
 	panicked string
 	parseErr string
 	timedOut bool
+	elapsed  time.Duration // wall time of the evaluation (only used to tell a spent budget from a stale deadline error)
 }
 
 // session is one persistent interpreter state with its output buffer.
@@ -69,6 +70,8 @@ func (ss *session) eval(src string, maxDur time.Duration) (res runOut) {
 	}
 	cancel := ss.s.SetContext(context.Background(), maxDur)
 	defer cancel()
+	started := time.Now()
+	defer func() { res.elapsed = time.Since(started) }()
 	ss.s.DefineMacros(prog)
 	var node any = prog
 	if ss.s.NumMacros() > 0 {
